@@ -47,7 +47,7 @@ FUNC_MAP = [
     (r"ash\.py", r"(Ack|Nak|Data|Rst|RStack|Error|Ash)Frame\.", ["C03", "C04", "C02"]),
     (r"ash\.py", r"_process_buffer|data_received$|_unstuff|_stuff", ["C02", "C03", "C04"]),
     (r"ash\.py", r"_send_data_frame|_change_ack_timeout|_handle_ack|_enter_failed_state|error_frame_received|send_data", ["C05", "C04", "C01"]),
-    (r"ash\.py", r"data_frame_received|frame_received|rstack_frame|rst_frame", ["C04", "C11", "C01"]),
+    (r"ash\.py", r"data_frame_received|frame_received|rstack_frame|rst_frame", ["C04", "C05", "C11", "C01"]),
     (r"ash\.py", r".", ["C10", "C11", "C05"]),
     (r"uart\.py", r".", ["C11", "C10", "C09"]),
     (r"thread\.py", r".", ["C20"]),
@@ -67,7 +67,8 @@ FUNC_MAP = [
     (r"application\.py", r"_handle_frame_sent|send_packet|_get_free_buffers", ["C12"]),
     (r"application\.py", r"_handle_frame|ezsp_callback_handler|_handle_tc_join|_reset_mfg_id|handle_join|handle_leave", ["C13", "C12"]),
     (r"application\.py", r"_watchdog", ["C19"]),
-    (r"application\.py", r"load_network_info|write_network_info|reset_network_info|_reset$|_ensure_network_running", ["C14"]),
+    (r"application\.py", r"_ensure_network_running", ["C17", "C14"]),
+    (r"application\.py", r"load_network_info|write_network_info|reset_network_info|_reset$", ["C14"]),
     (r"application\.py", r"__init__", ["C12", "C13", "C19"]),
     (r"application\.py", r".", []),
     (r"util\.py", r".", ["C14"]),
